@@ -61,6 +61,18 @@ pub fn seed_state(id: u8) -> Memfs {
             let _ = m.mkdir_p("/d");
             let _ = m.set_cwd("/a");
         },
+        6 => {
+            // a directory far larger than any batch size someone might pick (a call that works through it in
+            // several critical sections shows a half-done state to an observer in between)
+            let _ = m.mkdir_p("/big/sub");
+            for i in 0..560 {
+                let _ = m.write_all(format!("/big/f{:04}", i), b"");
+            }
+            for i in 0..90 {
+                let _ = m.write_all(format!("/big/sub/g{:03}", i), b"");
+            }
+            let _ = m.mkdir_p("/d");
+        },
         _ => {
             let _ = m.mkdir_p("/a/b");
             let _ = m.write_all("/a/b/h", b"h");
@@ -598,7 +610,7 @@ fn bystander_stress(c: &Ctx, rounds: usize) {
                         Vfs::Memfs(x) => x,
                         _ => unreachable!(),
                     };
-                    for _ in 0..6000 {
+                    for it in 0..6000u32 {
                         let facts: Vec<(&str, bool)> = if via_wrapper {
                             vec![
                                 ("is_readonly(/ro)", v.is_readonly("/ro")),
@@ -627,6 +639,8 @@ fn bystander_stress(c: &Ctx, rounds: usize) {
                                 ("entry(/ro).mode", mem.entry("/ro").ok().map(|e| e.mode()) == Some(0o100444)),
                                 ("all_files(/rod)==[]", mem.all_files("/rod").ok().map(|x| x.len()) == Some(0)),
                                 ("dirs(/rod)==[sub]", mem.dirs("/rod").ok().map(|x| x.len()) == Some(1)),
+                                ("Display-mentions-/rol", it % 200 != 0 || format!("{}", mem).contains("/rol")),
+                                ("Debug-renders", it % 200 != 100 || !format!("{:?}", mem).is_empty()),
                             ]
                         };
                         if let Some((what, _)) = facts.iter().find(|(_, ok)| !*ok) {
@@ -656,7 +670,7 @@ fn bystander_stress(c: &Ctx, rounds: usize) {
 }
 
 pub fn run(c: &Ctx) {
-    c.set_rule("controlled scheduler on hook H1: real threads park before every MemfsGuard acquisition and exactly one is released at a time, so an execution is a function of (seed state, program, schedule). For every program ALL interleavings at critical-section granularity are enumerated depth-first (cap per program noted). Programs: quick = all 2-thread programs with (1,1) calls over a 15-form core alphabet and a seeded quarter of the (2,1) programs from a populated seed state, all 448 'two mutators of one directory vs one listing/reader' programs, and all (1,1) programs over the full 45-form alphabet from two more seed states (nested dirs + link; cwd below root); thorough = all (1,1),(2,1) over the 45-form alphabet, seeded samples of (2,2),(1,1,1),(2,1,1), four seed states, plus (both tiers) every rich call form of the VFS trait on every path of a seed state as a one-thread program (guard discipline: nesting is a property of the call alone) and every listed single-step call form on every path of that state racing each of 8 mutators (quick: a seeded half), relative-path forms racing cwd changes, attribute queries racing replacing moves / chown / chmod on a seed state with distinct modes and owners, plus 147 programs 'write/append handle session vs two calls that remove / replace its file' (no sequential equivalence claimed for the composite: no panic, no poisoned lock, no dead-lock, integrity); about half of all programs run through the Vfs enum wrapper instead of the Memfs value; plus uncontrolled runs: (both tiers) 2/12 rounds in which three threads write 256 KiB payloads to their own paths while two threads ask 12 000 times about entries nobody touches (every answer must be the one every sequential order gives); (both tiers) 2/12 rounds in which three threads put 1200 files through write/append handles (dropped without flush, or flushed) while four threads keep the lock busy with listings and writes elsewhere - at quiescence every handle's bytes are in its file; (thorough) 8-thread stress rounds. Oracle per execution: no nested guard acquisition (would dead-lock), no panic, every call returns, C03 invariants at quiescence, every successful append_all payload exactly once, and linearizability: per-call results (Ok values; Err-ness) and the final tree equal those of SOME sequential order of the same calls on a fresh instance that respects program order and real-time precedence. Non-trivial = execution in which calls of different threads overlap in time and one mutates; distinct by (seed, program, schedule).");
+    c.set_rule("controlled scheduler on hook H1: real threads park before every MemfsGuard acquisition and exactly one is released at a time, so an execution is a function of (seed state, program, schedule). For every program ALL interleavings at critical-section granularity are enumerated depth-first (cap per program noted). Programs: quick = all 2-thread programs with (1,1) calls over a 15-form core alphabet and a seeded quarter of the (2,1) programs from a populated seed state, all 448 'two mutators of one directory vs one listing/reader' programs, and all (1,1) programs over the full 45-form alphabet from two more seed states (nested dirs + link; cwd below root); thorough = all (1,1),(2,1) over the 45-form alphabet, seeded samples of (2,2),(1,1,1),(2,1,1), four seed states, plus (both tiers) every rich call form of the VFS trait on every path of a seed state as a one-thread program (guard discipline: nesting is a property of the call alone) and every listed single-step call form on every path of that state racing each of 8 mutators (quick: a seeded half), relative-path forms racing cwd changes, attribute queries racing replacing moves / chown / chmod on a seed state with distinct modes and owners, plus 147 programs 'write/append handle session vs two calls that remove / replace its file' (no sequential equivalence claimed for the composite: no panic, no poisoned lock, no dead-lock, integrity); about half of all programs run through the Vfs enum wrapper instead of the Memfs value; plus 12 programs in which one call removes / moves / re-modes / re-owns a directory of 650 entries while another thread lists it or asks about its first and last entries; plus uncontrolled runs: (both tiers) 2/12 rounds in which three threads write 256 KiB payloads to their own paths while two threads ask 12 000 times about entries nobody touches (every answer must be the one every sequential order gives); (both tiers) 2/12 rounds in which three threads put 1200 files through write/append handles (dropped without flush, or flushed) while four threads keep the lock busy with listings and writes elsewhere - at quiescence every handle's bytes are in its file; (thorough) 8-thread stress rounds. Oracle per execution: no nested guard acquisition (would dead-lock), no panic, every call returns, C03 invariants at quiescence, every successful append_all payload exactly once, and linearizability: per-call results (Ok values; Err-ness) and the final tree equal those of SOME sequential order of the same calls on a fresh instance that respects program order and real-time precedence. Non-trivial = execution in which calls of different threads overlap in time and one mutates; distinct by (seed, program, schedule).");
     c.assume("all shared state of Memfs is behind the one RwLock (safe Rust): interleavings at guard granularity are complete; sequential specification = Memfs itself run single-threaded (functional correctness is C01's job)");
     install_hook();
     let quick = c.tier == Tier::Quick;
@@ -748,6 +762,29 @@ pub fn run(c: &Ctx) {
         disc += 1;
     }
     c.note("guard_discipline_single_call_programs", disc);
+    // a big directory (1600 entries) removed / copied / moved / re-moded as ONE step while another thread looks
+    {
+        let s = |x: &str| x.to_string();
+        let bigops = vec![
+            Op::RemoveAll(s("/big")),
+            Op::MoveP(s("/big"), s("/moved")),
+            Op::Chmod(s("/big"), 0o700),
+            Op::ChownB(s("/big"), ChownOpt { uid: Some(7), gid: Some(8), recursive: true, follow: false }),
+        ];
+        let observers = vec![
+            vec![Op::Paths(s("/big"))],
+            vec![Op::Exists(s("/big/f0559")), Op::Exists(s("/big/f0000"))],
+            vec![Op::Owner(s("/big/f0559")), Op::Mode(s("/big/sub/g089"))],
+        ];
+        let mut n = 0u64;
+        for b in &bigops {
+            for o in &observers {
+                jobs.push((6, vec![vec![b.clone()], o.clone()], n % 2 == 1, false));
+                n += 1;
+            }
+        }
+        c.note("big_directory_programs", n);
+    }
     // every single-step call form the statement lists, on every path of the seed state, racing each of a
     // set of mutators of the same subtree: (1,1) programs, all interleavings
     let racers = vec![
